@@ -75,6 +75,12 @@ def gen_C14(rng, tier):
             x2 = p.tensor(shape, act_values(rng, prod(shape), 'sigmoid'), tracked=True)
             y2 = p.bind('fwd %s %s' % (a, x2)); p.add('obs %s' % y2)
             p.tag('object-reused')
+        if kind != 'softmax' and rng.random() < 0.15:
+            # special values at specific positions
+            sv = [rng.choice([float('nan'), float('inf'), float('-inf'), -0.0, 0.0, 1.7e308, -1.7e308]) if rng.random() < 0.5 else v
+                  for v in act_values(rng, prod(shape), 'sigmoid')]
+            xs = p.tensor(shape, sv); ys = p.bind('fwd %s %s' % (a, xs)); p.add('obs %s' % ys)
+            p.tag('special-values')
         p.tag(kind, 'rank%d' % len(shape))
         progs.append(p)
     return progs
@@ -404,6 +410,14 @@ def gen_C19(rng, tier):
                     else: p.add('acc %s %s %s' % (metric, a, p.tensor([3], [1.0, 2.0, 3.0])))
                     p.add('result %s' % metric)
                     p.tag('rejected-' + kind)
+        if i % 10 == 9:
+            # special values: NaN never equals anything (not even itself), infinities equal themselves, -0 equals +0
+            for k in range(total):
+                if rng.random() < 0.4:
+                    v = rng.choice([float('nan'), float('inf'), float('-inf'), -0.0, 0.0])
+                    yp[k] = v
+                    yt[k] = v if rng.random() < 0.7 else rng.choice([float('nan'), 0.0, -0.0, float('inf')])
+            p.tag('special-values')
         feed(m, sorted(rng.sample(range(1, total), min(total - 1, rng.randint(0, 3)))) if total > 1 else [])
         feed(m2, sorted(rng.sample(range(1, total), min(total - 1, rng.randint(0, 3)))) if total > 1 else [])
         p.tag('total%d' % total)
